@@ -78,6 +78,21 @@ for _n in ("shift", "diff"):
            kw=lambda draw, n: {"window": draw(st.integers(1, 4))}, value_kinds="fiumM"))
 reg(Op("ema", "row", lambda gb, v, m, kw: gb.ema(v, mask=m, **kw), masks=BOOL_ONLY, float_tol=True, value_kinds="fi",
        kw=lambda draw, n: draw(st.sampled_from([{"alpha": 0.5}, {"alpha": 0.125}, {"halflife": 2.0}, {"alpha": 1.0}]))))
+
+
+def _timed_kw(draw, n):
+    steps = draw(st.lists(st.sampled_from([0, 1, 1, 2, 5, 37]), min_size=n, max_size=n))
+    t, times = 10**18, []
+    for s_ in steps:
+        t += s_ * 10**8
+        times.append(t)
+    return {"times": times, "halflife": draw(st.sampled_from(["1s", "250ms", "3700ms"]))}
+
+
+reg(Op("ema_timed", "row", lambda gb, v, m, kw: gb.ema(v, mask=m, halflife=kw["halflife"],
+                                                       times=np.array(kw["times"], dtype="int64").view("M8[ns]")),
+       masks=BOOL_ONLY, float_tol=True, value_kinds="fi", kw=_timed_kw))
+ROW_KW = ("times",)  # keyword arguments that are row-aligned lists (must be filtered with the rows)
 for _n in ("head", "tail"):
     reg(Op(_n, "sel", (lambda nm: lambda gb, v, m, kw: getattr(gb, nm)(v, n=kw["n"], keep_input_index=True))(_n), masks=NO_MASK,
            kw=lambda draw, n: {"n": draw(st.integers(0, 4))}))
